@@ -1174,6 +1174,14 @@ class store_catalogue:
             tgt = np.full(shp, -7.0)
             fn(x, tgt)
             return [(tgt, tuple(slice(0, n) for n in shp), expected)]
+        if mode == "region" and not shp:
+            # a 0-d source stored into one element of a larger target: the region is all there is to say where
+            tgt = np.full((5,), -7.0)
+            fn(x, tgt, regions=(3,))
+            out = [(tgt, (3,), expected)]
+            tgt2 = np.full((2, 4), -7.0)
+            fn(x, tgt2, regions=(1, 2))
+            return out + [(tgt2, (1, 2), expected)]
         if mode == "region":
             big = tuple(n + 3 for n in shp)
             tgt = np.full(big, -7.0)
